@@ -148,6 +148,19 @@ def rules(ctx, tier):
                         "a lock guard is released between append (%s) and apply (%s)" % (site_where(a), site_where(c)))
     r.need(5, "append / apply sites")
     out.append(r.finish())
+    # a write that has returned is visible to every later read: its Ok return lies behind the apply step (the
+    # necessary half of linearizability that is a shape of the code; shared with C01-R1)
+    from . import c01
+    shared = dict((x.rid, x) for x in c01.rules(ctx, tier))
+    x = shared.get("R1")
+    if x is not None:
+        x.rid = "R5"
+        x.title = "a write that returned Ok has been applied to the index (shared with C01-R1)"
+        x.scenario = ("put() returns Ok while its effect is still pending in another writer (or is dropped): a later "
+                      "get returns the old value - no sequential order explains the history")
+        for o in x.obs:
+            o.scenario = x.scenario
+        out.append(x)
     return out
 
 
